@@ -2,6 +2,8 @@ import GV.Lib.Line
 import GV.Model.NativeScript
 /-
   C29 driver.
+    nsg dijkstra <start|-> <ttl|-> <wits|-> <guards> <k> ...   (body key 14: k:<hash>,.. | c:<t>.<hash>,..)
+    nsc <allegra|conway> <start|-> <ttl|-> <wits|-> <k> ...     (in-memory transaction, no preserved bytes)
     ns <era> <start|-> <ttl|-> <wits|-> <k> <scripthex>=<refhash> ...
         wits: comma list of v<vkeyhex>=<keyhash> | b<pubkeyhex>=<keyhash>   (hashes supplied by Go)
         refhash = Blake2b-224(0x00 ++ script bytes), computed by the generator with x/crypto
@@ -32,6 +34,45 @@ def parseGuard (s : String) : Option (Nat × Bytes) :=
   | [t, h] => do let t ← parseNat? t; let h ← parseHex? h; pure (t, h)
   | _ => none
 
+/-- guards token: `-` | `k:<hash>,..` (key hashes = credentials of type 0) | `c:<t>.<hash>,..` -/
+def parseGuards (s : String) : Option (Option (List (Nat × Bytes))) :=
+  if s = "-" then some none else
+  let body := String.ofList (s.toList.drop 2)
+  if s.startsWith "k:" then
+    ((body.splitOn ",").mapM parseHex?).map (fun l => some (l.map (fun h => (0, h))))
+  else if s.startsWith "c:" then
+    ((body.splitOn ",").mapM (fun (e : String) =>
+      match e.splitOn "." with
+      | [t, h] => do let t ← parseNat? t; let h ← parseHex? h; pure (t, h)
+      | _ => none)).map some
+  else none
+
+def runTx (st tl ws gs k : String) (rest : List String) (preserved : Bool) : Out :=
+  match parseOptNat st, parseOptNat tl, (splitList ws).mapM parseWit, parseGuards gs, parseNat? k,
+        rest.mapM parseScriptTok with
+  | some st, some tl, some ks, some gl, some k, some scs =>
+    if scs.length ≠ k || k = 0 then badOp else
+    match scs.mapM (fun x => decode x.1) with
+    | none => { model := "err" }
+    | some ps =>
+      let t : TxCtx := { start := st, ttl := tl, keyHashes := ks, guards := gl }
+      let scripts := ps.map (·.script)
+      let res := match ruleFirstFail t scripts preserved with
+        | none => "ok"
+        | some i => s!"fail:{i}"
+      let hashes := ",".intercalate (scs.map (·.2))
+      let spans := ",".intercalate ((ps.flatMap (·.spans)).map toHex)
+      -- the property is silent on guards; without preserved bytes a present zero bound is
+      -- (documentedly) read as absent
+      let constrained := scripts.all (fun s => hashes28 s && !hasGuard s) &&
+        (preserved || !scripts.any (boundary t))
+      let spec :=
+        if !constrained then s!"hashes={hashes} *"
+        else if scripts.all (specEval t) then s!"hashes={hashes} res=ok *"
+        else s!"hashes={hashes} res=fail*"
+      { model := s!"hashes={hashes} res={res} spans={spans}", spec := spec }
+  | _, _, _, _, _, _ => badOp
+
 def handle (line : String) : Out :=
   match tokens line with
   | ["ev", st, en, ks, gs, sc] =>
@@ -45,28 +86,9 @@ def handle (line : String) : Out :=
         let c : GoCtx := { validityStart := st, validityEnd := en, keyHashes := ks, guards := guards }
         { model := boolStr (eval c p.script) }
     | _, _, _, _, _ => badOp
-  | "ns" :: _era :: st :: tl :: ws :: k :: rest =>
-    match parseOptNat st, parseOptNat tl, (splitList ws).mapM parseWit, parseNat? k, rest.mapM parseScriptTok with
-    | some st, some tl, some ks, some k, some scs =>
-      if scs.length ≠ k || k = 0 then badOp else
-      match scs.mapM (fun x => decode x.1) with
-      | none => { model := "err" }
-      | some ps =>
-        let t : TxCtx := { start := st, ttl := tl, keyHashes := ks }
-        let scripts := ps.map (·.script)
-        let res := match ruleFirstFail t scripts with
-          | none => "ok"
-          | some i => s!"fail:{i}"
-        let hashes := ",".intercalate (scs.map (·.2))
-        let spans := ",".intercalate ((ps.flatMap (·.spans)).map toHex)
-        let constrained := scripts.all (fun s => hashes28 s && !hasGuard s)
-        let spec :=
-          if !constrained then s!"hashes={hashes} *"
-          else if scripts.all (specEval t) then s!"hashes={hashes} res=ok *"
-          else s!"hashes={hashes} res=fail*"
-        let cls := if scripts.any (boundary t) then "absent-bound" else ""
-        { model := s!"hashes={hashes} res={res} spans={spans}", spec := spec, cls := cls }
-    | _, _, _, _, _ => badOp
+  | "ns" :: _era :: st :: tl :: ws :: k :: rest => runTx st tl ws "-" k rest true
+  | "nsg" :: _era :: st :: tl :: ws :: gs :: k :: rest => runTx st tl ws gs k rest true
+  | "nsc" :: _era :: st :: tl :: ws :: k :: rest => runTx st tl ws "-" k rest false
   | _ => badOp
 
 end GV.Drv.C29
